@@ -81,7 +81,8 @@ BnMin(x, y) == IF BnLeq(x, y) THEN x ELSE y
 
 (* ---- the target ------------------------------------------------------------- *)
 (* ordered-state target numerator: Urn(v) * L(v)  ( = J(sort v) / Perms(sort v) ) *)
-PiNum(i, v) == MulAll(<<1>>, UrnFactors(i, v) \o ReadFactors(i, G(v)))
+PiNum(i, v) == IF Tile(i) = 1 THEN MulAll(<<1>>, UrnFactors(i, v) \o ReadFactors(i, G(v)))
+               ELSE BnMul(MulAll(<<1>>, UrnFactors(i, v)), LBig(i, G(v)))
 RECURSIVE BnSumS(_)
 BnSumS(s) == IF s = <<>> THEN <<>> ELSE BnAdd(Head(s), BnSumS(Tail(s)))
 RECURSIVE BnProdS(_)
